@@ -80,6 +80,8 @@ theorem recoverable_partial (w : PW) (r : Run) (hw : Recoverable w) (hs : strand
     split
     · exact hw
     · exact hw
+    · exact hw
+    · exact hw
     · rename_i hacc
       simp only [hacc, beq_self_eq_true, Bool.true_and, Bool.or_eq_false_iff] at hs
       obtain ⟨⟨⟨h1, h2⟩, h3⟩, h4⟩ := hs
